@@ -10,7 +10,7 @@ import re
 from fractions import Fraction
 
 from core import enc_bool, enc_str
-from lib_frames import Batch, Env, Leaf, box_names, build, canon_measure, canon_render, rule_title_plain, title_plain
+from lib_frames import Batch, Env, Leaf, box_names, build, canon_measure, canon_render, render_segments, rule_title_plain, style_complete, title_plain
 
 PROPERTY = "C08"
 
@@ -29,7 +29,18 @@ RSTRIP_COUNTS_CHARS = 0
 # 1 = Columns(width=w) computes max_width // (w + padding) columns, possibly 0, and raises ZeroDivisionError (F11);
 #     0 = the repair `max(1, max_width // max(1, w + padding))` (fix f7ecf83; proposed as pending_fixes/C08-columns-width-plus-padding-zero.ALTERNATIVE-to-C14.diff), in /repo now.
 COLUMNS_ZERO_COUNT = 0
-VARIANT = ZERO_WIDTH_CHILD + 2 * RULE_RIGHT_REPEAT + 4 * RSTRIP_COUNTS_CHARS + 8 * COLUMNS_ZERO_COUNT
+# 1 = Console.render_lines(..., style=s) restyles the rendered segments but pads short lines with style None, so the blanks that
+#     complete a child's line inside Panel(style=…) are unstyled (finding panel-content-pad-unstyled);
+#     0 = the repair in pending_fixes/C08-render-lines-pad-style.diff is applied.
+LINES_PAD_UNSTYLED = 1
+# 1 = Panel renders its title with console.render(title_text) — at console.width, not at the width it aligned the title to — so a
+#     panel rendered with options wider than the console gets a cropped top border (finding panel-title-at-console-width);
+#     0 = the repair in pending_fixes/C08-panel-title-width.diff is applied.
+TITLE_AT_CONSOLE_WIDTH = 1
+# 1 = a Rule without title ignores its `end` option (rule.py:62); 0 = the repair in pending_fixes/C08-rule-no-title-end.diff is applied.
+RULE_NO_TITLE_END = 1
+VARIANT = (ZERO_WIDTH_CHILD + 2 * RULE_RIGHT_REPEAT + 4 * RSTRIP_COUNTS_CHARS + 8 * COLUMNS_ZERO_COUNT + 16 * LINES_PAD_UNSTYLED
+           + 32 * TITLE_AT_CONSOLE_WIDTH + 64 * RULE_NO_TITLE_END)
 
 GUIDE_CHARS = set(" |+-`│├─└┃┣━┗║╠═╚")
 BAR_CHARS = set(" █▐▕▏▎▍▌▋▊▉")
@@ -65,6 +76,40 @@ def unpack(pad):
     return tuple(pad)
 
 
+def streams(segs):
+    """lines of (character, style) of the non-control segments; the line feeds themselves are dropped"""
+    lines, cur = [], []
+    for sg in segs:
+        if sg.is_control:
+            continue
+        for ch in sg.text:
+            if ch == "\n":
+                lines.append(cur)
+                cur = []
+            else:
+                cur.append((ch, sg.style))
+    if cur:
+        lines.append(cur)
+    return lines
+
+
+def sty(base, cs):
+    """`Segment.apply_style(base)` on a segment of style cs"""
+    return cs if base is None else base + cs
+
+
+def same_style(a, b):
+    return (a is None and b is None) or (a is not None and b is not None and a == b)
+
+
+def stream_eq(got, want):
+    return len(got) == len(want) and all(g[0] == w[0] and same_style(g[1], w[1]) for g, w in zip(got, want))
+
+
+def stream_cells(st):
+    return cell_len("".join(c for c, _ in st))
+
+
 class World:
     """one console + its leaves; renders children alone (memoised) for the oracle"""
 
@@ -72,7 +117,13 @@ class World:
         self.ctx, self.env, self.objs, self.names, self.boxes = ctx, env, objs, names, boxes
         self.console = env.console()
         self.wtab = wtab
-        self.leaves = [Leaf(self.console, o, wtab, repr(o)[:40]) for o in objs]
+        import copy
+        import lib_frames
+
+        cell_env = copy.copy(env)  # the options of a default table Column, under which Columns renders its items
+        cell_env.justify, cell_env.overflow, cell_env.no_wrap = "left", "ellipsis", False
+        self.leaves = [Leaf(self.console, o, wtab, repr(o)[:40], env) for o in objs] + [Leaf(self.console, o, wtab, repr(o)[:40], cell_env) for o in objs]
+        lib_frames.COLS_SHIFT[0] = len(objs)
         self.batch = Batch(ctx, env, self.leaves, names, self.console)
         self.memo = {}
 
@@ -85,7 +136,18 @@ class World:
             return self.leaves[e[1]].text_at(w)
         key = (repr(e), w)
         if key not in self.memo:
-            self.memo[key] = render_text(self.console, build(e, self.objs), w)[0]
+            self.memo[key] = render_text(self.console, build(e, self.objs), w, self.env)[0]
+        return self.memo[key]
+
+    def child_stream(self, e, w):
+        """the child's own rendering at width w as lines of (character, style)"""
+        if w < 1:
+            return []
+        if e[0] == "L" and w <= self.wtab:
+            return streams(self.leaves[e[1]].renders[w])
+        key = ("s", repr(e), w)
+        if key not in self.memo:
+            self.memo[key] = streams(render_segments(self.console, build(e, self.objs), w, self.env))
         return self.memo[key]
 
     def child_lines(self, e, w):
@@ -106,9 +168,11 @@ class World:
 
     # ------------------------------------------------------------------ one query = correspondence + property
     def query(self, e, mw, measure=False):
-        impl, text = canon_render(self.console, lambda: build(e, self.objs), mw)
+        styled = style_complete(e)
+        impl, text, segs = canon_render(self.console, lambda: build(e, self.objs), mw, self.env, styled)
+        self.segs = segs
         readable = f"{self.env!r} render {e!r} max_width={mw}"
-        self.batch.add("R", VARIANT, mw, e, impl, readable)
+        self.batch.add("S" if styled else "R", VARIANT, mw, e, impl, readable)
         if measure:
             self.batch.add("M", VARIANT, mw, e, canon_measure(self.console, lambda: build(e, self.objs), mw), readable.replace("render", "measure"))
         if text is None:
@@ -182,6 +246,16 @@ def check_pad(wd, e, mw, text):
     elif body != want:
         return wd.fail("Padding", e, mw, f"body {body!r} is not the child's own lines {own!r} between {left}/{right} blanks")
     wd.ok("Padding")
+    if None not in want:
+        # padding_style: every cell the frame adds carries the requested style; the child's cells carry style + their own
+        st = wd.console.get_style(e[4] if len(e) > 4 else "none")
+        own_s = wd.child_stream(child, inner)
+        want_s = ([[(" ", st)] * width] * top
+                  + [[(" ", st)] * left + [(c, sty(st, cs)) for c, cs in l] + [(" ", st)] * (inner - stream_cells(l)) + [(" ", st)] * right for l in own_s]
+                  + [[(" ", st)] * width] * bottom)
+        got_s = streams(wd.segs)
+        wd.ctx.check(len(got_s) == len(want_s) and all(stream_eq(g, w_) for g, w_ in zip(got_s, want_s)), "Padding:style", (repr(wd.env), e, mw),
+                     "a padding cell does not carry the requested style, or a child cell not style + its own")
     if not expand:
         check_fit_intact(wd, "Padding", e, child, mw, mw - left - right, body, left)
 
@@ -212,6 +286,16 @@ def check_panel(wd, e, mw, text):
     widths = {cell_len(l) for l in lines}
     if len(widths) > 1:
         finding = None
+        own_justify = getattr(o.get("title"), "justify", None) is not None
+        if title and len({cell_len(l) for l in lines[1:]}) == 1 and (
+                (mw > wd.env.width and cell_len(lines[0]) < cell_len(lines[1])) or (own_justify and cell_len(lines[0]) == wd.env.width + 4)):
+            # only the top border is off: the panel is wider than the console (title cropped to console.width), or the title
+            # Text has its own `justify` (title padded out to console.width)
+            finding = "panel-title-at-console-width"
+        elif (title and getattr(o.get("title"), "overflow", None) == "ellipsis" and len({cell_len(l) for l in lines[1:]}) == 1
+              and cell_len(lines[1]) == 4 and cell_len(lines[0]) == 5 and lines[0][2:-2] == "…"):
+            # Text.truncate(0, overflow="ellipsis") yields "…" (one cell) for a title that has no room at all
+            finding = "panel-title-ellipsis-in-zero-cells"
         return wd.fail("Panel", e, mw, f"lines of different widths {sorted(widths)}", finding)
     width = widths.pop()
     expand = o.get("expand", True)
@@ -236,7 +320,10 @@ def check_panel(wd, e, mw, text):
             return wd.fail("Panel", e, mw, f"top border {lines[0]!r}")
         mid = lines[0][2:-2]
         room = width - 4
-        if cell_len(t) <= room:
+        plain_title = o.get("title") if isinstance(o.get("title"), str) else None
+        if plain_title not in SIMPLE_TITLES:
+            wd.ctx.note("Panel:title-not-simple")  # markup, tabs, own overflow…: only the rectangle is claimed
+        elif cell_len(t) <= room:
             ex = room - cell_len(t)
             a = o.get("title_align", "center")
             lft = {"left": 0, "center": ex // 2, "right": ex}[a]
@@ -259,8 +346,44 @@ def check_panel(wd, e, mw, text):
     elif [l[1:-1] for l in body] != want:
         return wd.fail("Panel", e, mw, f"body {[l[1:-1] for l in body]!r} is not the (padded) child's own lines {own!r}")
     wd.ok("Panel")
+    if None not in want:
+        check_panel_style(wd, e, mw, width, inner_e, bool(title))
     if not expand and not title and o.get("width") is None and mw >= 3:
         check_fit_intact(wd, "Panel", e, inner_e, mw, mw - 2, [l[1:-1] for l in body], 0)
+
+
+def check_panel_style(wd, e, mw, width, inner_e, has_title):
+    """panel_border_style: every border cell carries style + border_style, every content cell style + its own — including the
+    blanks that complete a short child line (they are content of the panel: `style (str): The style of the panel (border and contents)`)."""
+    o = e[1]
+    st = wd.console.get_style(o.get("style", "none"))
+    bs = st + wd.console.get_style(o.get("border_style", "none"))
+    got = streams(wd.segs)
+    own = wd.child_stream(inner_e, width - 2)
+    inp = (repr(wd.env), e, mw)
+    border_ok = all(same_style(x[1], bs) for x in got[-1]) and (has_title or all(same_style(x[1], bs) for x in got[0]))
+    if has_title:  # the four corner / edge cells around the title and the fill characters
+        border_ok = border_ok and all(same_style(x[1], bs) for x in got[0][:2] + got[0][-2:])
+        if isinstance(o.get("title"), str) and "[" not in o["title"]:
+            border_ok = border_ok and all(same_style(x[1], bs) for x in got[0])
+    for row in got[1:-1]:
+        border_ok = border_ok and same_style(row[0][1], bs) and same_style(row[-1][1], bs)
+    wd.ctx.check(border_ok, "Panel:border-style", inp, "a border cell does not carry style + border_style")
+    bad_child, bad_pad = False, False
+    for row, l in zip(got[1:-1], own):
+        body = row[1:-1]
+        n = len(l)
+        if not stream_eq(body[:n], [(c, sty(st, cs)) for c, cs in l]):
+            bad_child = True
+        if not all(ch == " " and same_style(x, st) for ch, x in body[n:]):
+            bad_pad = True
+    finding = None
+    if bad_pad and not bad_child and all(ch == " " and x is None for row, l in zip(got[1:-1], own) for ch, x in row[1:-1][len(l):]
+                                         if not same_style(x, st)):
+        finding = "panel-content-pad-unstyled"
+    wd.ctx.check(not (bad_child or bad_pad), "Panel:content-style", inp,
+                 "a content cell of the panel does not carry the panel style" + (" (the blanks completing a short line have style None)" if bad_pad and not bad_child else ""),
+                 finding=finding)
 
 
 def check_align(wd, e, mw, text):
@@ -294,6 +417,18 @@ def check_align(wd, e, mw, text):
     if (pad or o["align"] == "right") and wc <= mw and any(cell_len(l) != mw for l in lines):
         return wd.fail("Align", e, mw, "a padded line is not the available width")
     wd.ok("Align")
+    st = None if o.get("style") is None else wd.console.get_style(o["style"])
+    iw_used = None
+    for m_ in (m, max(1, m)):
+        iw = min(m_ if o.get("width") is None else min(m_, o["width"]), mw)
+        if [("".join(c for c, _ in l)) for l in wd.child_stream(child, iw)] == own:
+            iw_used = iw
+    if iw_used is not None:
+        own_s = wd.child_stream(child, iw_used)
+        want_s = [[(" ", st)] * lft + [(c, sty(st, cs)) for c, cs in l] + [(" ", sty(st, None))] * (wc - stream_cells(l)) + [(" ", st)] * rgt for l in own_s]
+        got_s = streams(wd.segs)
+        wd.ctx.check(len(got_s) == len(want_s) and all(stream_eq(g, w_) for g, w_ in zip(got_s, want_s)), "Align:style", (repr(wd.env), e, mw),
+                     "a pad cell does not carry the requested style, or a child cell not style + its own")
     if o.get("width") is None:
         check_fit_intact(wd, "Align", e, child, mw, mw, lines, None)
 
@@ -306,18 +441,55 @@ def check_constrain(wd, e, mw, text):
 
 def check_styled(wd, e, mw, text):
     wd.ctx.check(text == wd.child_text(e[1], mw), "Styled", (repr(wd.env), e, mw), "text changed by Styled")
+    st = wd.console.get_style(e[2] if len(e) > 2 else "bold")
+    want_s = [[(c, sty(st, cs)) for c, cs in l] for l in wd.child_stream(e[1], mw)]
+    got_s = streams(wd.segs)
+    wd.ctx.check(len(got_s) == len(want_s) and all(stream_eq(g, w_) for g, w_ in zip(got_s, want_s)), "Styled:style", (repr(wd.env), e, mw),
+                 "a cell does not carry style + its own")
+
+
+def check_vc(wd, e, mw, text):
+    """VerticalCenter: the child's own lines (unpadded) in the middle of `console.height` lines; the blank lines above and
+    below are as wide as the child's widest line and carry the requested style."""
+    _, style, child = e
+    lines, term = split_out(text)
+    own = wd.child_lines(child, mw)
+    h = wd.env.height
+    top = (h - len(own)) // 2
+    bottom = h - top - len(own)
+    wc = max([cell_len(l) for l in own], default=0)
+    want = [" " * wc] * max(top, 0) + own + [" " * wc] * max(bottom, 0)
+    if wc > mw:
+        return wd.ctx.note("VerticalCenter:child-overflows-its-width")
+    if (text and not term) or lines != want:
+        return wd.fail("VerticalCenter", e, mw, f"{len(lines)} lines, expected {max(top, 0)} blank + {len(own)} + {max(bottom, 0)} blank of {wc} cells")
+    st = None if style is None else wd.console.get_style(style)
+    got_s = streams(wd.segs)
+    own_s = wd.child_stream(child, mw)
+    want_s = [[(" ", st)] * wc] * max(top, 0) + own_s + [[(" ", st)] * wc] * max(bottom, 0)
+    # (streams() drops empty trailing lines only at the very end; lengths agree because every line ends with a line feed)
+    ok = len(got_s) == len(want_s) and all(stream_eq(g, w_) for g, w_ in zip(got_s, want_s))
+    wd.ctx.check(ok, "VerticalCenter:style", (repr(wd.env), e, mw), "a blank cell does not carry the requested style or a child cell changed")
+    wd.ok("VerticalCenter")
 
 
 def check_rule(wd, e, mw, text):
     o = e[1]
-    # (a rule without title ignores its `end` option: rule.py:62 builds the Text with the default end)
-    end = o.get("end", "\n") if o.get("_title_plain", "") else "\n"
-    if not text.endswith(end):
-        return wd.fail("Rule", e, mw, "does not end with `end`")
+    end = o.get("end", "\n")
+    if not text.endswith(end) or (end == "" and text.endswith("\n")):
+        finding = "rule-no-title-ignores-end" if not o.get("_title_plain", "") and text.endswith("\n") and "\n" not in text[:-1] else None
+        wd.fail("Rule:end", e, mw, f"the rule does not end with its `end` option {end!r}: {text[-3:]!r}", finding)
+        end = "\n" if finding else end
+        if not text.endswith(end):
+            return
     line = text[: len(text) - len(end)] if end else text
     if "\n" in line:
         return wd.fail("Rule", e, mw, "more than one line")
     title = o.get("_title_plain", "").replace("\n", " ")
+    if "\t" in title or wd.env.justify not in (None, "default", "left"):
+        title_checks = False  # tabs are expanded / the line may be re-justified by the options: only the width is claimed
+    else:
+        title_checks = True
     chars = o.get("characters", "─")
     if wd.env.ascii_only and not chars.isascii():
         chars = "-"
@@ -328,6 +500,8 @@ def check_rule(wd, e, mw, text):
             finding = "rule-rstrip-zero-width"
         return wd.fail("Rule", e, mw, f"rule is {cell_len(line)} cells wide, given {mw}: {line!r}", finding)
     # content: only the title (possibly truncated), blanks and `characters`
+    if not title_checks:
+        return wd.ok("Rule")
     if not title:
         n = len(line.rstrip(" "))
         if (chars * (mw + 1))[:n] != line[:n] and " " not in chars:
@@ -358,6 +532,8 @@ def eff_width(width, mw):
 
 def check_bar(wd, e, mw, text):
     o = e[1]
+    if (o.get("width") or 0) < 0:
+        return wd.ctx.note("Bar:negative-width-option")
     w = eff_width(o.get("width"), mw)
     if not text.endswith("\n") or "\n" in text[:-1]:
         return wd.fail("Bar", e, mw, "not exactly one line")
@@ -378,6 +554,8 @@ def check_bar(wd, e, mw, text):
 
 def check_pbar(wd, e, mw, text):
     o = e[1]
+    if (o.get("width") or 0) < 0:
+        return wd.ctx.note("ProgressBar:negative-width-option")
     w = eff_width(o.get("width"), mw)
     n = cell_len(text)
     colour = (not wd.env.no_color) and wd.env.color_system is not None
@@ -443,8 +621,8 @@ def check_tree(wd, e, mw, text):
 
 
 CHECKS = {"PAD": check_pad, "PANEL": check_panel, "ALIGN": check_align, "CONSTRAIN": check_constrain, "STYLED": check_styled,
-          "RULE": check_rule, "BAR": check_bar, "PBAR": check_pbar, "TREE": check_tree,
-          "L": lambda wd, e, mw, text: None}
+          "RULE": check_rule, "RULET": check_rule, "BAR": check_bar, "PBAR": check_pbar, "TREE": check_tree, "VC": check_vc,
+          "L": lambda wd, e, mw, text: None, "COLS": lambda wd, e, mw, text: None}
 
 
 # ---------------------------------------------------------------------------------------------- Columns
@@ -559,33 +737,42 @@ def rand_tree(rng, depth, nleaves, budget):
 def rand_expr(rng, nleaves, depth, names):
     if depth == 0 or rng.random() < 0.25:
         return ("L", rng.randrange(nleaves))
-    k = rng.choice(["PAD", "PAD", "PANEL", "PANEL", "ALIGN", "ALIGN", "CONSTRAIN", "STYLED", "TREE"])
+    k = rng.choice(["PAD", "PAD", "PANEL", "PANEL", "ALIGN", "ALIGN", "CONSTRAIN", "STYLED", "TREE", "VC"])
     sub = rand_expr(rng, nleaves, depth - 1, names)
     if k == "PAD":
-        return ("PAD", rng.choice([0, 1, 2, (1, 2), (0, 1, 2, 3), (2, 0, 0, 1), (3,)]), rng.random() < 0.5, sub)
+        return ("PAD", rng.choice([0, 1, 2, (1, 2), (0, 1, 2, 3), (2, 0, 0, 1), (3,)]), rng.random() < 0.5, sub, rng.choice(STYLES))
     if k == "PANEL":
         return ("PANEL", rand_panel_opts(rng, names), sub)
     if k == "ALIGN":
-        return ("ALIGN", {"align": rng.choice(["left", "center", "right"]), "pad": rng.random() < 0.6, "width": rng.choice([None, None, 0, 3, 8, 40])}, sub)
+        return ("ALIGN", {"align": rng.choice(["left", "center", "right"]), "pad": rng.random() < 0.6, "width": rng.choice([None, None, 0, 3, 8, 40, -2]),
+                          "style": rng.choice([None, None] + STYLES)}, sub)
     if k == "CONSTRAIN":
-        return ("CONSTRAIN", rng.choice([None, 0, 1, 5, 12, 80]), sub)
+        return ("CONSTRAIN", rng.choice([None, 0, 1, 5, 12, 80, -3]), sub)
     if k == "STYLED":
-        return ("STYLED", sub)
+        return ("STYLED", sub, rng.choice(STYLES))
+    if k == "VC":
+        return ("VC", rng.choice([None] + STYLES), sub)
     return ("TREE", (sub, rng.choice(["", "bold"]), True, [(("L", rng.randrange(nleaves)), "", True, []) for _ in range(rng.randint(0, 2))]))
 
 
-TITLES = [None, "T", "hello title", "あ̀x", "two\nlines", " ", "a b"]
+TITLES = [None, "T", "hello title", "あ̀x", "two\nlines", " ", "a b", "[b]bo[/b]ld [i]it", "a\tb", "w\u3000s", "a very long title indeed", "x\x0by"]
+SIMPLE_TITLES = {"T", "hello title", "あ̀x", "two\nlines", " ", "a b"}
+STYLES = ["none", "bold", "on red", "italic blue on white", "not bold", "underline", "bold on red"]
 
 
 def rand_panel_opts(rng, names):
     from rich.text import Text
 
     t = rng.choice(TITLES)
+    mode = "S" if t in SIMPLE_TITLES and rng.random() < 0.4 else "T"
     if t is not None and rng.random() < 0.3:
-        t = Text(t)
-    return {"box": rng.choice(names), "title": t, "title_align": rng.choice(["left", "center", "right"]), "expand": rng.random() < 0.5,
-            "width": rng.choice([None, None, 0, 2, 5, 7, 12, 50]), "padding": rng.choice([(0, 1), 0, 1, (1, 0, 2, 3), (0, 2), (2,)]),
-            "safe_box": rng.choice([None, None, True, False])}
+        t = Text(t, justify=rng.choice([None, None, "right"]), overflow=rng.choice([None, "ellipsis"]), tab_size=rng.choice([8, 4]))
+        mode = "T"
+        if rng.random() < 0.5 and len(t) > 1:
+            t.stylize("italic", 0, rng.randint(1, len(t)))
+    return {"_tmode": mode, "box": rng.choice(names), "title": t, "title_align": rng.choice(["left", "center", "right"]), "expand": rng.random() < 0.5,
+            "width": rng.choice([None, None, 0, 2, 5, 7, 12, 50, -1]), "padding": rng.choice([(0, 1), 0, 1, (1, 0, 2, 3), (0, 2), (2,)]),
+            "safe_box": rng.choice([None, None, True, False]), "style": rng.choice(STYLES), "border_style": rng.choice(STYLES)}
 
 
 def run(ctx):
@@ -620,17 +807,17 @@ def run(ctx):
     ctx.flush()
 
     quick = ctx.quick
-    envs = [Env(12), Env(16, ascii_only=True), Env(14, legacy_windows=True, color_system="truecolor"), Env(10, no_color=True, color_system="standard"),
-            Env(13, color_system="windows", safe_box=False, legacy_windows=True), Env(20, color_system="256")]
+    envs = [Env(12), Env(16, ascii_only=True), Env(14, legacy_windows=True, color_system="truecolor", height=3), Env(10, no_color=True, color_system="standard", justify="center"),
+            Env(13, color_system="windows", safe_box=False, legacy_windows=True, justify="right", overflow="ellipsis", height=0), Env(20, color_system="256", no_wrap=True, justify="full")]
     if not quick:
         envs += [Env(33), Env(60, color_system="truecolor"), Env(80, ascii_only=True, legacy_windows=True), Env(200), Env(47, no_color=True),
                  Env(25, color_system="standard", safe_box=False)]
     objs = leaf_objects()
     nl = len(objs)
     for ei, env in enumerate(envs):
-        extra = 3
+        extra = 8  # options wider than the console are legal (`console.render(x, options)`): some of every frame
         wd = World(ctx, env, objs, env.width + extra, names, boxes)
-        widths = list(range(0, env.width + extra + 1)) if env.width <= 24 else sorted({0, 1, 2, 3, 4, 5, 6, 7, 9, 12, 17, env.width - 1, env.width, env.width + 2} | {rng.randint(1, env.width) for _ in range(8)})
+        widths = (list(range(0, env.width + 4)) + [env.width + 6, env.width + 8]) if env.width <= 24 else sorted({0, 1, 2, 3, 4, 5, 6, 7, 9, 12, 17, env.width - 1, env.width, env.width + 2} | {rng.randint(1, env.width) for _ in range(8)})
         exprs = []
         # bounded-exhaustive core: every leaf under every option class of every frame
         leaf_ids = range(nl) if ei < 2 or not quick else rng.sample(range(nl), 6)
@@ -638,14 +825,16 @@ def run(ctx):
             L = ("L", i)
             for pad in [0, 1, (1, 2), (0, 1, 2, 3), (2, 0, 1, 0), (0, 0, 0, 2)]:
                 for ex in (True, False):
-                    exprs.append(("PAD", pad, ex, L))
+                    exprs.append(("PAD", pad, ex, L, rng.choice(STYLES)))
             for al in ("left", "center", "right"):
                 for pd in (True, False):
-                    for w_ in (None, 0, 3, 8):
-                        exprs.append(("ALIGN", {"align": al, "pad": pd, "width": w_}, L))
-            for w_ in (None, 0, 5, 30):
+                    for w_ in (None, 0, 3, 8, -2):
+                        exprs.append(("ALIGN", {"align": al, "pad": pd, "width": w_, "style": rng.choice([None] + STYLES)}, L))
+            for w_ in (None, 0, 5, 30, -3):
                 exprs.append(("CONSTRAIN", w_, L))
-            exprs.append(("STYLED", L))
+            exprs.append(("STYLED", L, rng.choice(STYLES)))
+            exprs.append(("VC", rng.choice([None] + STYLES), L))
+            exprs.append(("PANEL", {"style": "on red", "border_style": "bold", "padding": 0}, L))
             for _ in range(14 if quick else 60):
                 exprs.append(("PANEL", rand_panel_opts(rng, names), L))
             exprs.append(("PANEL", {"expand": False, "padding": 0}, L))
@@ -656,6 +845,12 @@ def run(ctx):
             exprs.append(rand_expr(rng, nl, 3, names))
         for _ in range(40 if quick else 300):
             exprs.append(("TREE", rand_tree(rng, 0, nl, [rng.randint(0, 9)])))
+        # Columns rendered to the characters (the inner Table.grid is C07's model, the glue C01's): items are leaves / small frames
+        for _ in range(40 if quick else 300):
+            items = [("L", rng.randrange(nl)) if rng.random() < 0.85 else ("PAD", 1, False, ("L", rng.randrange(nl)), "none") for _ in range(rng.choice([0, 1, 2, 3, 4, 5, 7]))]
+            exprs.append(("COLS", dict(padding=rng.choice([(0, 1), 0, 1, (0, 2), (1, 0, 0, 3)]), width=rng.choice([None, None, None, 0, 3, 6, 30]),
+                                       equal=rng.random() < 0.3, column_first=rng.random() < 0.5, right_to_left=rng.random() < 0.4,
+                                       expand=rng.random() < 0.3, align=rng.choice([None, None, "left", "center", "right"])), items))
         # rules
         from rich.text import Text
 
@@ -665,17 +860,27 @@ def run(ctx):
                 for al in ("left", "center", "right"):
                     if quick and rng.random() < 0.5:
                         continue
-                    rules.append(("RULE", {"title": title, "_title_plain": rule_title_plain(wd.console, title), "characters": ch, "align": al,
-                                           "end": rng.choice(["\n", "\n", "", "\n\n"])}))
+                    o_ = {"title": title, "_title_plain": rule_title_plain(wd.console, title), "characters": ch, "align": al,
+                          "end": rng.choice(["\n", "\n", "", "\n\n"])}
+                    if env.justify is None and rng.random() < 0.4:  # the plain-text model of the first round (default justify only)
+                        rules.append(("RULE", o_))
+                    else:
+                        rules.append(("RULET", dict(o_, style=rng.choice(["rule.line", "rule.line", "bold red"]))))
+        for title in ["[b]bo[/b]ld [i]it", "a\tb", "w\u3000s", "a very long title indeed", Text("sp an", spans=[]), Text("tab\tx", tab_size=4)]:
+            if isinstance(title, Text) and title.plain == "sp an":
+                title.stylize("bold", 1, 4)
+            for al in ("left", "center", "right"):
+                rules.append(("RULET", {"title": title, "_title_plain": rule_title_plain(wd.console, title), "characters": rng.choice(["─", "あ", "ab"]),
+                                        "align": al, "end": "\n", "style": "rule.line"}))
         exprs += rules
         bars = []
         for size, bg, en in [(100, 0, 50), (100, 20, 20), (10, 3, 7), (7, 1, 6), (1, Fraction(1, 4), Fraction(3, 4)), (0, 0, 0), (100, -5, 200), (3, 0, 3),
                              (8, Fraction(1, 8), Fraction(9, 8)), (5, 4, 2)] + [(rng.randint(1, 40), rng.randint(-3, 40), rng.randint(-3, 45)) for _ in range(6 if quick else 60)]:
-            for w_ in (None, 0, 5, 40):
+            for w_ in (None, 0, 5, 40, -3):
                 bars.append(("BAR", {"size": size, "begin": bg, "end": en, "width": w_}))
         for tot, comp in [(100, 0), (100, 50), (100, 100), (100, 150), (3, 1), (7, -2), (0, 0), (8, Fraction(5, 2)), (-4, 2), (1, Fraction(1, 2))] + [
                 (rng.randint(1, 50), rng.randint(-2, 55)) for _ in range(6 if quick else 60)]:
-            for w_ in (None, 0, 5, 40):
+            for w_ in (None, 0, 5, 40, -3):
                 for pulse in (False, True):
                     bars.append(("PBAR", {"total": tot, "completed": comp, "width": w_, "pulse": pulse, "time": Fraction(rng.randint(-40, 400), 4)}))
         exprs += bars
